@@ -175,6 +175,11 @@ class C02(GenCheck):
             else:
                 q = self.meaning(case, a)[0]
                 b = ["c", rng.choice([math.floor(q), math.floor(q) + 1, float(round(float(q), 5)), float(round(float(q) + rng.choice([-0.00001, 0.00001, 0.5]), 5))])]
+            if len(case["regs"]) > 1 and rng.random() < 0.6:
+                # the 32-bit integer register against a decimal constant whose whole part is the register's value
+                kind, no = case["regs"][1]
+                a = ["r", kind, no]
+                b = ["c", float(case["reginit"][no]) + rng.choice([0.5, 0.29, 0.00001, 0.99999, -0.5, -0.00001, 0.0])]
             if rng.random() < 0.2:
                 a, b = b, a
             if a[0] == "c" and b[0] == "c":
